@@ -19,18 +19,20 @@ vacuity check per function and per loop invariant, one canary per function that
 must be refuted, known-finding matching, state-injection replay under
 `/venv/bin/python`, bounded stand-ins reported separately, the report cache
 (section 10.6), evidence.  Added in the third round (section 10): the inductive
-loop rule (`receive_data`, every header pipeline stage), self-recursion through
+loop rule (`receive_data`, every header pipeline stage, and -- with a ghost
+`visited` set -- the per-stream loops over `self.streams`), self-recursion through
 the function's own contract with a `decreases` measure (`FrameBuffer.__next__`),
 functional summaries for modular callees, z3 lemmas, the layer-2 string /
-header-field model.
+header-field model, and the CPython cross-check of the engine on concrete inputs
+(`tools/crosscheck.py`; run by every thorough check, a mismatch is exit 3).
 
-Planned in section 2.8 / 3.2 / 3.5 and **not built**: the CPython cross-check of the
-engine's transition relation, the in-memory mutant catalogue, run-time contract
+Planned in section 2.8 / 3.2 / 3.5 and **not built**: the in-memory mutant catalogue, run-time contract
 monitoring of the test suite, the history search of section 3.2(2) (a violation whose
 state-injection replay does not reproduce is reported with
 `no-failing-input-found`), the both-solvers-on-every-obligation thorough mode.
-The **thorough tier differs from quick only in the per-obligation solver
-budget** (60 s instead of 10 s); it explores the same paths and bounds.  What
+The **thorough tier differs from quick in the per-obligation solver budget**
+(60 s instead of 10 s) **and in running the CPython cross-check first**; it
+explores the same paths and bounds.  What
 stands in for the mutant catalogue is `seeded/`: %d stored property-breaking
 changes (patch + native demo that exits 1 with the change and 0 without; the
 1403 baseline tests pass with each; all but the marked reintroductions were
